@@ -422,6 +422,16 @@ func (g *gaugeHist) genWeights() ([]litypes.PoolWeight, string) {
 		}
 		ws = []litypes.PoolWeight{{PoolId: pick(), Weight: f(a)}, {PoolId: pick(), Weight: f(b)}}
 		return ws, kind
+	case 2: // a negative weight hidden behind a larger positive one: every prefix sum stays within [0, 1]
+		if r.N(2) == 0 {
+			a := 200000000000000000 + r.Next()%700000000000000000
+			b := 1 + r.Next()%(a-1)
+			ws = []litypes.PoolWeight{{PoolId: pick(), Weight: fmt.Sprintf("0.%018d", a)}, {PoolId: pick(), Weight: fmt.Sprintf("-0.%018d", b)}}
+			if r.Bool() {
+				ws = append(ws, litypes.PoolWeight{PoolId: pick(), Weight: "0.1"})
+			}
+			return ws, "bad_weight"
+		}
 	case 1: // many equal parts
 		m := 2 + r.N(5)
 		for i := 0; i < m; i++ {
